@@ -59,6 +59,7 @@ def run(tier):
     _d_configs(chk)
     _d_period(chk)
     _d_start_symmetry(chk)
+    _d_period_setter(chk)
     _e_jacobian(chk)
     _e_tolerance_chain(chk)
     return chk
@@ -476,6 +477,28 @@ def _d_configs(chk):
     for name, idx in (("_g_x0", 0), ("_g_y0", 1), ("_g_z0", 2)):
         v = S(ipg.call_function(SH, name, [sp.Symbol("t"), y]))
         chk.check(v == y[idx], "C05.d", f"{SH}::{name}", f"{name} reads {v}, expected y[{idx}]", sample=f"{name}(t,y) = y[{idx}]")
+
+
+def _d_period_setter(chk):
+    """The period the correction hands to the orbit is the period the orbit then has: assigning a value that differs from
+    the stored one, however slightly (a re-correction at a tighter tolerance, a period pre-set from a neighbouring family
+    member), takes effect and drops what was computed from the old one."""
+    OSM = "hiten.algorithms.types.services.orbits"
+    omod, ocls = ri.find_def(OSM, "_OrbitDynamicsService")
+    setter = ri.class_member(omod, ocls, "period", kind="setter")
+    if setter is None:
+        raise AnalysisError("anchor: _OrbitDynamicsService.period setter not found")
+    for label, old, new in (("1e-7 apart", sp.Rational(3, 1), sp.Rational(3, 1) + sp.Rational(1, 10 ** 7)), ("from None", None, sp.Rational(5, 2)),
+                            ("clearly different", sp.Rational(3, 1), sp.Rational(7, 2))):
+        resets = []
+        obj = SymObj(ClassRef(omod, ocls), {"_period": old, "_trajectory": sp.Symbol("TRAJ"), "_stability_info": sp.Symbol("STAB"), "reset": lambda *a: resets.append(a)}, "dynamics")
+        ip = Interp()
+        ip.apply(FuncRef(setter[0], setter[2], bound_self=obj, qual="_OrbitDynamicsService.period", owner=(setter[0], setter[1])), [new], {})
+        ok = obj.attrs.get("_period") == new and resets and obj.attrs.get("_trajectory") is None and obj.attrs.get("_stability_info") is None
+        chk.check(ok, "C05.d", f"{OSM}::_OrbitDynamicsService.period[setter,{label}]",
+                  f"assigning period {new} to an orbit whose period is {old} leaves period={obj.attrs.get('_period')} (cache dropped: {bool(resets)}): the corrected period does not take effect",
+                  sample=f"{label}: period becomes the assigned value; trajectory/stability/cache dropped")
+    chk.count("functions partially evaluated", 3)
 
 
 def _guess_zero_pattern(omod, fam):
